@@ -329,6 +329,18 @@ func genCase(rng *rand.Rand, cfg vh.Config, i int) *Case {
 		c.ReqCT = pick(rng, "application/x-www-form-urlencoded", "application/json", "application/octet-stream", "text/plain", "multipart/form-data; boundary=zz", "")
 	}
 	c.BodyHex = hex.EncodeToString(bodyAround(rng, reqLen, c.ReqLimit, reqMarker, where))
+	// delivery in several short reads (a spilled buffer must keep every piece)
+	if reqLen > 1 && rng.Intn(3) == 0 && !c.LenBody {
+		for k := 1 + rng.Intn(4); k > 0; k-- {
+			c.Pieces = append(c.Pieces, 1+rng.Intn(reqLen))
+		}
+		if c.Mode == "server" {
+			c.Chunked = true // pieces only survive the wire as chunks
+		}
+		if c.ReqMem == 0 && rng.Intn(2) == 0 {
+			c.ReqMem = 1 + rng.Intn(c.ReqLimit)
+		}
+	}
 	// response
 	respLen := sizeAround(rng, c.RespLimit)
 	if respLen > 2200 {
@@ -480,6 +492,76 @@ func compositions(n int) [][]int {
 	for first := 1; first <= n; first++ {
 		for _, rest := range compositions(n - first) {
 			out = append(out, append([]int{first}, rest...))
+		}
+	}
+	return out
+}
+
+// memGridCases: SecRequestBodyInMemoryLimit {unset, 1, small, limit-1, limit} x body sizes around the
+// in-memory limit AND the body limit x delivery in 1..k short reads x known/unknown length x real
+// server / recorder x handlers that read all / part / none of the body.
+func memGridCases(cfg vh.Config) []*Case {
+	var out []*Case
+	none := Spec{Kind: "none"}
+	limits := []int{16}
+	if cfg.Thorough() {
+		limits = []int{8, 16, 40}
+	}
+	body := []byte("0123456789abcdefghijklmnopqrstuvwxyzABCDEFGHIJKLMNOPQRSTUVWXYZ0123456789abcdefghijklmnopqrstuvwxyz")
+	k := 0
+	for _, lim := range limits {
+		for _, mem := range []int{0, 1, lim / 2, lim - 1, lim} {
+			sizes := map[int]bool{lim - 1: true, lim: true, lim + 1: true, 2*lim + 3: true}
+			if mem > 0 {
+				for _, n := range []int{mem, mem + 1, mem + 5} {
+					sizes[n] = true
+				}
+			}
+			for n := range sizes {
+				if n < 2 || n > len(body) {
+					continue
+				}
+				patterns := [][]int{
+					{1},                // one byte, then the rest
+					{n / 2},            // halves
+					{3, 3, 3, 3, 3, 3}, // small pieces, rest in one
+					{n - 1},            // all but the last byte
+					{mem + 1, 1, 2},    // first piece crosses the in-memory limit, small ones follow
+				}
+				for pi, pat := range patterns {
+					k++
+					c := &Case{Engine: "On", ReqAccess: true, ReqLimit: lim, ReqMem: mem,
+						RespAccess: false, RespLimit: 100, RespAction: "Reject", Mimes: []string{"text/plain"},
+						Ph1: none, Ph2: none, Ph3: none, Ph4: none, Method: "POST", ReqCT: "application/octet-stream"}
+					c.ReqAction = "ProcessPartial"
+					if n < lim && k%2 == 0 {
+						c.ReqAction = "Reject"
+					}
+					switch (k + pi) % 3 {
+					case 0:
+						c.Mode, c.Chunked = "server", true
+					case 1:
+						c.Mode, c.Chunked = "recorder", false
+					default:
+						c.Mode, c.Chunked = "recorder", true
+					}
+					c.Pieces = pat
+					c.BodyHex = hex.EncodeToString(body[:n])
+					switch k % 4 {
+					case 0, 1:
+						c.Ops = []Op{{Op: "rdall"}}
+					case 2:
+						c.Ops = []Op{{Op: "rd", N: mem + 2}, {Op: "rdall"}}
+					default:
+						c.Ops = []Op{{Op: "rd", N: n - 1}}
+					}
+					if k%7 == 0 {
+						c.Ops = nil
+					}
+					c.Ops = append(c.Ops, Op{Op: "w", Hex: hex.EncodeToString([]byte("ok"))})
+					out = append(out, c)
+				}
+			}
 		}
 	}
 	return out
